@@ -17,6 +17,16 @@ class Syn:
         self.normalised = 0
         for f in self.j["files"]:
             self.normalised += synnorm.normalise(f)
+        # functions found by role (kv/roles.py, from the MIR facts extracted together with these) are given their
+        # canonical names, so that no syntax-tree rule depends on what a private function happens to be called
+        self.renamed = {}
+        mirp = os.path.join(os.path.dirname(os.path.abspath(path)), "mir.json")
+        if os.path.exists(mirp):
+            self.renamed = _role_renames(mirp)
+            if self.renamed:
+                for f in self.j["files"]:
+                    if not f["path"].endswith("/parser.rs"):
+                        _apply_renames(f, self.renamed)
 
     def file(self, path):
         return self.files.get(path)
@@ -239,3 +249,36 @@ def simple_lets(stmts):
         if p["k"] == "PIdent" and p["sub"] is None:
             out[p["name"]] = st["init"]
     return out
+
+
+_RENAMES = {}
+
+
+def _role_renames(mirp):
+    if mirp not in _RENAMES:
+        from .mir import Mir
+        from .roles import Roles
+        try:
+            _RENAMES[mirp] = Roles(Mir(mirp)).source_renames()
+        except Exception:
+            _RENAMES[mirp] = {}
+    return _RENAMES[mirp]
+
+
+def _apply_renames(tree, ren):
+    """rename identifiers (function names, method names, path segments) actual -> canonical; a name that is already
+    taken by the canonical spelling but belongs to something else is moved out of the way first"""
+    taken = set(ren.values())
+    for n in walk(tree):
+        k = n.get("k")
+        if k == "Fn" and isinstance(n.get("name"), str):
+            nm = n["name"]
+            n["name"] = ren.get(nm, nm + "__other" if nm in taken else nm)
+        elif k == "MethodCall" and isinstance(n.get("method"), str):
+            nm = n["method"]
+            n["method"] = ren.get(nm, nm)
+        elif k in ("Path", "PPath") and isinstance(n.get("path"), dict):
+            segs = n["path"]["segs"]
+            if any(s_ in ren for s_ in segs):
+                n["path"]["segs"] = [ren.get(s_, s_) for s_ in segs]
+                n["path"]["src"] = "::".join(n["path"]["segs"])
